@@ -2,6 +2,7 @@ import XV.Driver.Util
 import XV.Driver.Utf8
 import XV.Driver.Regex
 import XV.Driver.Codec
+import XV.Driver.Ns
 import XV.Driver.ContentModel
 import XV.Driver.DtdValid
 open XV.Driver
@@ -16,5 +17,8 @@ def main (args : List String) : IO UInt32 := do
   | ["cmspec"] => lineLoop stdin stdout XV.Driver.ContentModel.handleSpec; return 0
   | ["dtdspec"] => lineLoop stdin stdout XV.Driver.DtdValid.handle; return 0
   | ["codec"] => lineLoop stdin stdout XV.Driver.Codec.handle; return 0
+  | ["ns"] => lineLoop stdin stdout XV.Driver.Ns.handle; return 0
+  | ["nsspec"] => lineLoop stdin stdout XV.Driver.Ns.handleSpec; return 0
+  | ["nsmodel"] => lineLoop stdin stdout XV.Driver.Ns.handleModel; return 0
   | ["utf8spec"] => lineLoop stdin stdout XV.Driver.Utf8.handleSpec; return 0
   | _ => IO.eprintln "usage: xvdriver <area>"; return 2
